@@ -278,6 +278,11 @@ pub struct InstructionGenerator {
     /// bodies that enclose it. A `GOTO` that leaves FOR loops needs it,
     /// to drop the register frames of the loops it leaves.
     pub label_for_depths: std::collections::HashMap<CaseInsensitiveString, usize>,
+    /// The number of SELECT CASE statements that enclose the statement being
+    /// generated (each one keeps its selector on the value stack).
+    pub select_depth: usize,
+    /// Like `label_for_depths`, for enclosing SELECT CASE statements.
+    pub label_select_depths: std::collections::HashMap<CaseInsensitiveString, usize>,
 }
 
 impl InstructionGenerator {
@@ -291,54 +296,71 @@ impl InstructionGenerator {
             label_suffix: String::new(),
             for_depth: 0,
             label_for_depths: std::collections::HashMap::new(),
+            select_depth: 0,
+            label_select_depths: std::collections::HashMap::new(),
         }
     }
 
     fn generate_unresolved(&mut self, program: Program) {
         let (global_statements, functions, subs) = Self::split_program(program);
-        self.collect_label_for_depths(&global_statements, 0);
+        self.collect_label_depths(&global_statements, 0, 0);
         for f in &functions {
-            self.collect_label_for_depths(&f.element.body, 0);
+            self.collect_label_depths(&f.element.body, 0, 0);
         }
         for s in &subs {
-            self.collect_label_for_depths(&s.element.body, 0);
+            self.collect_label_depths(&s.element.body, 0, 0);
         }
         self.visit_global_statements(global_statements);
         self.visit_functions(functions);
         self.visit_subs(subs);
     }
 
-    fn collect_label_for_depths(&mut self, statements: &Statements, for_depth: usize) {
+    fn collect_label_depths(
+        &mut self,
+        statements: &Statements,
+        for_depth: usize,
+        select_depth: usize,
+    ) {
         for statement_pos in statements {
             match &statement_pos.element {
                 Statement::Label(name) => {
                     self.label_for_depths.insert(name.clone(), for_depth);
+                    self.label_select_depths
+                        .insert(name.clone(), select_depth);
                 }
                 Statement::IfBlock(i) => {
-                    self.collect_label_for_depths(&i.if_block.statements, for_depth);
+                    self.collect_label_depths(&i.if_block.statements, for_depth, select_depth);
                     for else_if_block in &i.else_if_blocks {
-                        self.collect_label_for_depths(&else_if_block.statements, for_depth);
+                        self.collect_label_depths(
+                            &else_if_block.statements,
+                            for_depth,
+                            select_depth,
+                        );
                     }
                     if let Some(else_block) = &i.else_block {
-                        self.collect_label_for_depths(else_block, for_depth);
+                        self.collect_label_depths(else_block, for_depth, select_depth);
                     }
                 }
                 Statement::SelectCase(s) => {
                     for case_block in &s.case_blocks {
-                        self.collect_label_for_depths(case_block.statements(), for_depth);
+                        self.collect_label_depths(
+                            case_block.statements(),
+                            for_depth,
+                            select_depth + 1,
+                        );
                     }
                     if let Some(else_block) = &s.else_block {
-                        self.collect_label_for_depths(else_block, for_depth);
+                        self.collect_label_depths(else_block, for_depth, select_depth + 1);
                     }
                 }
                 Statement::ForLoop(f) => {
-                    self.collect_label_for_depths(&f.statements, for_depth + 1);
+                    self.collect_label_depths(&f.statements, for_depth + 1, select_depth);
                 }
                 Statement::While(w) => {
-                    self.collect_label_for_depths(&w.statements, for_depth);
+                    self.collect_label_depths(&w.statements, for_depth, select_depth);
                 }
                 Statement::DoLoop(d) => {
-                    self.collect_label_for_depths(&d.statements, for_depth);
+                    self.collect_label_depths(&d.statements, for_depth, select_depth);
                 }
                 _ => {}
             }
